@@ -60,3 +60,23 @@ def writer_table(prog, qual, env=None, hook=None):
             table[target]["store_node"] = e["node"]
             table[target]["store_conds"] = e["conds"]
     return table, ev
+
+
+# NetCDF type codes that hold every unix time in seconds (about 1.4e9) / every station id exactly.  A 4-byte float has a 24-bit
+# mantissa: times come out in steps of 128 s, ids above 16.7 million collide.
+EXACT_INT_TYPES = {"f8", "d", "double", "float64", "i4", "i8", "u4", "u8", "i", "l", "int", "int32", "int64", "uint32", "uint64"}
+
+
+def check_exact_coordinates(ctx, rule, site, prog, module, table, variables=("time",)):
+    """The coordinate variables whose values are compared for equality between files (C02/C10: values are matched by coordinates) are
+    created with a type that represents them exactly."""
+    for var in variables:
+        row = table.get(var)
+        if row is None:
+            continue
+        dt = row.get("dtype")
+        ctx.ob(rule, site, dt in EXACT_INT_TYPES, "'%s' is created with a type that holds unix seconds exactly (%s)" % (var, dt),
+               loc=prog.loc(module, row["node"]),
+               msg="'%s' is created with NetCDF type %r: a 4-byte float (or a short integer) cannot represent unix times in seconds exactly, "
+                   "initialisation times are rounded (to multiples of 128 s for 'f4') and no longer match the same times read from another file" % (var, dt),
+               expected=sorted(EXACT_INT_TYPES)[:6], found=dt)
